@@ -158,6 +158,7 @@ func c14(c *core.Check) {
 	c14trie(c)
 	c14noFloatKeys(c)
 	c14runtimePanics(c)
+	c14jsonStrings(c)
 }
 
 // newPathTokenTotal: the panic in newPathToken's default arm is unreachable: every call passes a constant pathType that
